@@ -25,7 +25,10 @@ def b_moments_flagged(ctx):
             continue
         exact = go.get("is_exact", True)
         for n, val in enumerate(go["values"][ctx.pi][:ctx.N + 1]):
-            if exact:
+            if exact and "float" in val:
+                # flagged exact although it contains floating point numbers: must then be exactly equal
+                cl, why = {"t": "mom", "pi": ctx.src, "poly": poly, "tag": g, "val": F(val["float"])}, None
+            elif exact:
                 cl, why = C.val_claims("mom", val, {"pi": ctx.src, "poly": poly, "tag": g})
             else:
                 x = None
